@@ -90,6 +90,9 @@ def mapping_problems(s, t, tgeo, mapping):
 
 def replay(d):
     import numpy as np
+    # The check claims the module's own fallback branch of column_mapping (the one used when
+    # SciPy is not installed), so the replay runs the real module with scipy.spatial absent too.
+    sys.modules['scipy.spatial'] = None
     import mulgrids as mg
     fn = d.get('fn')
     sgeo, s = build(mg, d['s'])
